@@ -179,6 +179,8 @@ pub struct Ticket {
 pub struct ToyClientConfig {
     /// total size of the client hello (padding added); 0 = minimal
     pub ch_size: usize,
+    /// total size of the client's Handshake flight ("client certificate"); 0 = minimal
+    pub cf_size: usize,
     pub ticket: Option<Ticket>,
     pub param_hook: Option<ParamHook>,
     /// filled with the shared secret of each started session (for the MITM)
@@ -191,6 +193,7 @@ impl ToyClientConfig {
     pub fn new(seed: u64) -> Self {
         Self {
             ch_size: 0,
+            cf_size: 0,
             ticket: None,
             param_hook: None,
             secrets: Arc::new(Mutex::new(Vec::new())),
@@ -249,6 +252,7 @@ impl ClientConfig for ToyClientConfig {
             ticket: self.ticket.as_ref().map(|t| t.id),
             early_accepted: None,
             pad_to: self.ch_size,
+            pad_cf: self.cf_size,
             gen: 0,
             accept_early: false,
             pending_keys: Vec::new(),
@@ -307,6 +311,7 @@ impl ServerConfig for ToyServerConfig {
             ticket: None,
             early_accepted: None,
             pad_to: self.sf_size,
+            pad_cf: 0,
             gen: 0,
             accept_early: self.accept_early,
             pending_keys: Vec::new(),
@@ -335,6 +340,7 @@ pub struct ToySession {
     ticket: Option<u64>,
     early_accepted: Option<bool>,
     pad_to: usize,
+    pad_cf: usize,
     gen: u32,
     accept_early: bool,
     pending_keys: Vec<u8>,
@@ -549,7 +555,7 @@ impl Session for ToySession {
                 Some(keys_for(self.secret(), LVL_HANDSHAKE, self.side, 0))
             }
             (Side::Client, 3) => {
-                put_msg(buf, M_CF, &[]);
+                put_msg(buf, M_CF, &vec![0u8; self.pad_cf.saturating_sub(5)]);
                 self.state = 4;
                 Some(keys_for(self.secret(), LVL_ONE_RTT, self.side, 0))
             }
